@@ -28,6 +28,8 @@ type SchedScenario struct {
 	MapPoints bool     `json:"map_points,omitempty"`
 	// TxnOrder: insertion order of the datasets into the transaction map, per thread index (environment answer)
 	Oracle string `json:"oracle,omitempty"` // "" = linearizable final state + atomic reads
+	// CoarseBadger: only badger snapshot/commit events (and operations that block) are scheduling points
+	CoarseBadger bool `json:"coarse_badger,omitempty"`
 }
 
 // VInstallHooks routes the passive hooks into the active scheduler.
@@ -124,6 +126,26 @@ func (h *VHist) readOp(op VOp) (string, error) {
 			return "", err
 		}
 		return h.entsDigest(ch.Entities), nil
+	case "countlist": // number of entities ONE listing call returns
+		ds := h.W.Dsm.GetDataset(h.DsName(op.DS))
+		if ds == nil {
+			return "nodataset", nil
+		}
+		n := 0
+		if _, err := ds.MapEntitiesRaw("", -1, func([]byte) error { n++; return nil }); err != nil {
+			return "", err
+		}
+		return fmt.Sprint(n), nil
+	case "countfeed": // number of entries ONE feed page returns
+		ds := h.W.Dsm.GetDataset(h.DsName(op.DS))
+		if ds == nil {
+			return "nodataset", nil
+		}
+		c := 0
+		if _, err := ds.ProcessChangesRaw(0, -1, false, func([]byte) error { c++; return nil }); err != nil {
+			return "", err
+		}
+		return fmt.Sprint(c), nil
 	case "list":
 		ds := h.W.Dsm.GetDataset(h.DsName(op.DS))
 		if ds == nil {
@@ -151,7 +173,7 @@ func (h *VHist) entsDigest(es []*Entity) string {
 	return strings.Join(l, " ")
 }
 
-func isRead(k string) bool { return k == "get" || k == "getin" || k == "feed" || k == "list" }
+func isRead(k string) bool { return k == "get" || k == "getin" || k == "feed" || k == "list" || k == "countlist" || k == "countfeed" }
 
 // modelRead is the model-side digest of a read op.
 func (h *VHist) modelRead(m *model.World, op VOp) string {
@@ -174,6 +196,18 @@ func (h *VHist) modelRead(m *model.World, op VOp) string {
 			return model.Content{Props: map[string]interface{}{}, Refs: map[string]interface{}{}, Deleted: anyDel}.String()
 		}
 		return c.String()
+	case "countlist":
+		d := m.Datasets[op.DS]
+		if d == nil {
+			return "nodataset"
+		}
+		return fmt.Sprint(len(d.Versions))
+	case "countfeed":
+		d := m.Datasets[op.DS]
+		if d == nil {
+			return "nodataset"
+		}
+		return fmt.Sprint(len(d.Feed))
 	case "feed":
 		d := m.Datasets[op.DS]
 		if d == nil {
@@ -225,7 +259,7 @@ func (h *VHist) modelApplyR(m *model.World, op VOp) bool {
 		if m.Datasets[op.DS] == nil {
 			return false
 		}
-		_, ms := h.ents(op.Ents)
+		_, ms := h.ents(op.allEnts())
 		_, _ = m.Batch(op.DS, ms)
 		return true
 	case "txn":
@@ -345,6 +379,9 @@ func vRunSched(w *VWorld, sc *SchedScenario, prefix []int, horizon int) *vsync.E
 	}
 	s := vsync.NewSched(prefix, horizon)
 	s.MapPoints = sc.MapPoints
+	if sc.CoarseBadger {
+		s.Coarse = func(label string) bool { return strings.HasPrefix(label, "badger:") }
+	}
 	for _, n := range append([]string{datasetCore}, sc.Datasets...) {
 		if ds := w.Dsm.GetDataset(h.DsName(n)); ds != nil {
 			s.NameLock(&ds.WriteLock, "WriteLock:"+n)
